@@ -1,5 +1,7 @@
 import XalanModel.C15.Concrete
 import XalanModel.Generated.C15_FunctionKey
+import XalanModel.Generated.C15_ExecContext
+import XalanModel.Generated.C15_KeyTable
 import Driver.Util
 /-
 xm_c15: replays key scenarios on the Lean model (XalanModel/C15/Keys.lean, the transcription of
@@ -10,10 +12,15 @@ Requests (one reply line each; lines meant for the C++ harness only are answered
   doc <k> <tokens…>                           document k (0 = main source), see Concrete.parseDoc
   sheet <sid> <parent|->                      stylesheet module (sid 0 = root; parent imports it, in this order)
   decl <sid> <name> <pattern> <use>           xsl:key in module sid
-  call <ctxdoc> <name> str <value|->          key(name, 'value') with a context node in document ctxdoc
-  call <ctxdoc> <name> ns <argdoc> <pattern>  key(name, <all nodes of argdoc matching pattern>)
+  call <ctxdoc> <curdoc> <p|u> <top|pred> <name> str <value|->
+                                              key(name, 'value') with the XPath context node in document ctxdoc while the
+                                              XSLT current node is in document curdoc; p = the name is written with a prefix;
+                                              pred = key() sits in a predicate filtering all nodes of ctxdoc (the answer is
+                                              then the nodes of ctxdoc that are in their own key() result)
+  call <ctxdoc> <curdoc> <p|u> <top|pred> <name> ns <argdoc> <pattern>
+                                              key(name, <all nodes of argdoc matching pattern>)
   file … / anything else known to the harness → ok
-  run …                                       → for every call, in order:  K=<as-written model> S=<specification> F=<E when the regenerated FunctionKey guard shapes K, else ->
+  run …                                       → for every call, in order:  K=<as-written model> S=<specification> F=<E: the regenerated FunctionKey guard shapes K; P: position()/last() = 0 inside use shapes K; - neither>
                                                  each `ERR` or a comma list of document-order numbers (`-` = empty)
 -/
 open XalanModel.C15 XalanModel.C15.Concrete
@@ -26,6 +33,9 @@ inductive CallArg where
 
 structure CallReq where
   doc : Nat
+  cur : Nat
+  prefixed : Bool
+  pred : Bool
   name : String
   arg : CallArg
 
@@ -39,11 +49,11 @@ structure St where
 def St.doc (s : St) (k : Nat) : Doc := ((s.docs.find? fun p => p.1 = k).map (·.2)).getD default
 
 /-- the import tree below module `sid` (fuel = number of modules) -/
-def buildSheet (s : St) (docs : Nat → Doc) : Nat → Nat → Sheet String CNode
+def buildSheet (posZero : Bool) (s : St) (docs : Nat → Doc) : Nat → Nat → Sheet String CNode
   | 0, _ => Sheet.mk [] []
   | fuel + 1, sid =>
-    let own := (s.decls.filter fun d => d.1 = sid).map fun d => mkDecl docs d.2.1 d.2.2.1 d.2.2.2
-    let kids := (s.sheets.filter fun p => p.2 = some sid).map fun p => buildSheet s docs fuel p.1
+    let own := (s.decls.filter fun d => d.1 = sid).map fun d => mkDecl posZero docs d.2.1 d.2.2.1 d.2.2.2
+    let kids := (s.sheets.filter fun p => p.2 = some sid).map fun p => buildSheet posZero s docs fuel p.1
     Sheet.mk own kids
 
 def showList (l : List CNode) : String :=
@@ -60,31 +70,42 @@ def argOf (s : St) : CallArg → KeyArg
     .nodeset ((d.tree.docOrder.filter (matchPattern d pat)).map (·.value))
 
 /-- the environment of the transformation -/
-def envOf (s : St) : Env String CNode Nat :=
+def envOf (posZero : Bool) (s : St) : Env String CNode Nat :=
   let docs : Nat → Doc := s.doc
-  let root := buildSheet s docs (s.sheets.length + 1) 0
+  let root := buildSheet posZero s docs (s.sheets.length + 1) 0
   { keyDeclarations := root.postConstruction, doc := fun k => (docs k).tree, idx := fun n => n.idx,
     isDoc := fun n => n.kind = .root }
 
 def runAll (s : St) : String :=
   let skip := XalanModel.Generated.C15_FunctionKey.skipEmptyRefs
   let calls := s.calls.reverse
-  let cs := calls.map fun c => ({ doc := c.doc, name := c.name, arg := argOf s c.arg } : Call String Nat)
-  let env := envOf s
-  -- the code as written (the guard as regenerated from FunctionKey.cpp) and without the guard
-  let kFull := runCalls env skip [] cs
-  let kNoE := runCalls env false [] cs
+  let cs := calls.map fun c =>
+    ({ contextDoc := c.doc, currentDoc := c.cur, prefixed := c.prefixed, name := c.name, arg := argOf s c.arg } : XCall String Nat)
+  let pz := XalanModel.Generated.C15_KeyTable.useContextListEmpty
+  let env := envOf pz s
+  let ov : Overloads := ⟨XalanModel.Generated.C15_ExecContext.qnameUsesContext,
+    XalanModel.Generated.C15_ExecContext.stringUsesContext⟩
+  -- key() inside a predicate over the nodes of ctxdoc: only nodes of ctxdoc can be in the filtered result
+  let post (rs : List (Option (List CNode))) : List (Option (List CNode)) :=
+    (List.zip cs (List.zip calls rs)).map fun (xc, c, r) =>
+      if c.pred && xc.keyDoc ov != xc.contextDoc then r.map fun _ => [] else r
+  -- the code as written (the guard and the overloads as regenerated from the source) and without the guard
+  let kFull := post (runXCalls env ov skip [] cs)
+  let kNoE := post (runXCalls env ov false [] cs)
+  let kNoP := post (runXCalls (envOf false s) ov skip [] cs)
+  let spec := envOf false s       -- XSLT 1.0 12.2: position() = last() = 1 inside `use`
   let ss := calls.map fun c =>
     let vals := (argOf s c.arg).values
     -- specification: union over all string values of the argument; an undeclared name is an error
     -- (unless the argument is an empty node-set, where the result is empty whatever the name)
     if vals.isEmpty then some []
-    else if declared env.keyDeclarations c.name then some (specKeyArg env.keyDeclarations (env.doc c.doc) c.name vals)
+    else if declared spec.keyDeclarations c.name then some (specKeyArg spec.keyDeclarations (spec.doc c.doc) c.name vals)
     else none
-  let rows := List.zip kFull (List.zip ss kNoE)
-  " ".intercalate (rows.map fun (k, sp, e) =>
+  let rows := List.zip kFull (List.zip ss (List.zip kNoE kNoP))
+  " ".intercalate (rows.map fun (k, sp, e, p) =>
     let same (a b : Option (List CNode)) : Bool := showRes a == showRes b
-    s!"K={showRes k} S={showRes sp} F={if same k e then "-" else "E"}")
+    let fl := (if same k e then "" else "E") ++ (if same k p then "" else "P")
+    s!"K={showRes k} S={showRes sp} F={if fl.isEmpty then "-" else fl}")
 
 def step (s : St) : List String → St × String
   | ["case", _] => ({}, "ok")
@@ -103,14 +124,15 @@ def step (s : St) : List String → St × String
     match sid.toNat?, parsePattern pat with
     | some sid, some p => ({ s with decls := s.decls ++ [(sid, name, p, parseUse use)] }, "ok")
     | _, _ => ({ s with bad := true }, "bad decl")
-  | ["call", d, name, "str", v] =>
-    match d.toNat? with
-    | some d => ({ s with calls := ⟨d, name, .str (unval v)⟩ :: s.calls }, "ok")
-    | none => (s, "bad")
-  | ["call", d, name, "ns", ad, pat] =>
-    match d.toNat?, ad.toNat?, parsePattern pat with
-    | some d, some ad, some p => ({ s with calls := ⟨d, name, .ns ad p⟩ :: s.calls }, "ok")
-    | _, _, _ => ({ s with bad := true }, "bad call")
+  | ["call", d, cur, pu, form, name, "str", v] =>
+    match d.toNat?, cur.toNat? with
+    | some d, some cur => ({ s with calls := ⟨d, cur, pu == "p", form == "pred", name, .str (unval v)⟩ :: s.calls }, "ok")
+    | _, _ => (s, "bad")
+  | ["call", d, cur, pu, form, name, "ns", ad, pat] =>
+    match d.toNat?, cur.toNat?, ad.toNat?, parsePattern pat with
+    | some d, some cur, some ad, some p =>
+      ({ s with calls := ⟨d, cur, pu == "p", form == "pred", name, .ns ad p⟩ :: s.calls }, "ok")
+    | _, _, _, _ => ({ s with bad := true }, "bad call")
   | "file" :: _ => (s, "ok")
   | "run" :: _ => if s.bad then (s, "bad") else (s, runAll s)
   | _ => (s, "bad")
